@@ -112,7 +112,8 @@ class FnGrid:
                 continue
             guard = None
             if isinstance(arg, ast.Call) and fname(arg) == 'round':
-                guard = 'round() directly under the sink'
+                nd = arg.args[1].value if len(arg.args) == 2 and isinstance(arg.args[1], ast.Constant) else 0
+                guard = 'round(., %s) directly under the sink' % nd
             eps = [n for n in ast.walk(arg) if isinstance(n, ast.Constant) and isinstance(n.value, float) and 0 < abs(n.value) <= 1e-4]
             if eps and guard is None:
                 guard = 'additive epsilon %g' % eps[0].value
